@@ -71,7 +71,8 @@ lay = grules.layouts(tms)
 json.dump({"comment": "reference layouts: per model struct the (tag, kind) sequence the parser reads; reviewed against "
                       "the message documentation in the repository",
            "structs": {k: [[t, kk] for t, kk, ty in v] for k, v in sorted(lay.items())},
-           "types": {k: [ty for t, kk, ty in v] for k, v in sorted(lay.items())}},
+           "types": {k: [ty for t, kk, ty in v] for k, v in sorted(lay.items())},
+           "loops": grules.loop_guards(tms)},
           open(os.path.join(HERE, "spec", "layouts.json"), "w"), indent=1)
 print("wrote", len(lay), "layouts")
 
